@@ -11,7 +11,7 @@ import (
 
 func init() {
 	register("C02",
-		"Decides structural necessary conditions of 'zero-copy results stay intact until Release': (R1) wherever node memory escapes to the caller (a node.Next/Peek/Refer result or a direct node.buf slice that is not merely the source of a copy) the node was marked flagReadExposed first; (R2) outside the release set a node is recycled only when it is not exposed (readCopy); (R3) a pool block held in a field from which read results are handed out (caches, cachePeek) is freed only by Release; (R4) when a node's buf is set to a slice of another node's buf the two are linked by origin and a shared reference count; (R5) Refer always increments the root's count and node.Release frees only when the count reaches zero; (R6) a block from which results were handed out is not truncated for re-use before Release. Open known findings: R4 for the WriteDirect split and R6 for the Peek cache (both confirmed by findings/F8_F11_zero_copy_results_demo_test.go). Not decided: that content is actually unchanged (needs run-time poisoning), cross-goroutine release orders beyond the count shape.",
+		"Decides structural necessary conditions of 'zero-copy results stay intact until Release': (R1) wherever node memory escapes to the caller (a node.Next/Peek/Refer result or a direct node.buf slice that is not merely the source of a copy) the node was marked flagReadExposed first; (R2) outside the release set a node is recycled only when it is not exposed (readCopy); (R3) a pool block held in a field from which read results are handed out (caches, cachePeek) is freed only by Release; (R4) when a node's buf is set to a slice of another node's buf the two are linked by origin and a shared reference count; (R5) Refer always increments the root's count and node.Release frees only when the count reaches zero; (R6) a block from which results were handed out is not truncated for re-use before Release. Open known findings: R4 for the WriteDirect split and R6 for the Peek cache (both confirmed by findings/F8_F11_zero_copy_results_demo_test.go). The exposure mark is set after the last move of the cursor that names the node (the marked node is the one handed out); a block that went back to the pool is not kept referenced (C03.R2). Not decided: that content is actually unchanged (needs run-time poisoning), cross-goroutine release orders beyond the count shape.",
 		[]string{"mcache.Free may re-issue a block immediately"},
 		func(r *Run) {
 			cfgs := []string{"linux"}
